@@ -1,6 +1,6 @@
 CFG = {
     "modules": ["Parsley.Props.C03", "Parsley.Props.C03E2E", "Parsley.Props.C03E2EXref", "Parsley.Props.C03E2EObjStm", "Parsley.Props.C03E2EAll", "Parsley.Props.C03Render", "Parsley.Props.C03RenderX", "Parsley.Props.C03Enc",
-                "Parsley.Props.C03RenderDeep", "Parsley.Props.C03AnyFlate", "Parsley.Props.C03RenderFwd"],
+                "Parsley.Props.C03RenderDeep", "Parsley.Props.C03AnyFlate", "Parsley.Props.C03RenderFwd", "Parsley.Props.C03LenMember"],
     "theorems": [
         "Parsley.C03.identity_mismatch_rejected", "Parsley.C03.identity_mismatch_rejected_second",
         "Parsley.C03.firstPass_reject_lifts", "Parsley.C03.firstPass_direct",
@@ -8,6 +8,8 @@ CFG = {
         "Parsley.C03.load_never_panics_partial", "Parsley.LoaderNoPanic.parseData_no_panic",
         "Parsley.LoaderNoPanic.parseIndirect_inv", "Parsley.LoaderNoPanic.xrefLoop_ok", "Parsley.LoaderNoPanic.parseObjects_no_panic",
         "Parsley.C03.hybrid_hidden_gen0_witness",
+        # follow-up C03_6 (generator strengthening): the /Length of an ordinary stream stored in an object stream
+        "Parsley.C03.length_holder_in_objstm_witness",
         # follow-up C03b: end to end
         "Parsley.C03.load_defines_exactly_classic", "Parsley.C03.load_defines_exactly_classic_fwd", "Parsley.C03.load_never_panics",
         "Parsley.C03.exFile_wf", "Parsley.C03.exFileF_wf",
@@ -184,11 +186,16 @@ CFG = {
             "its stream is read - model side: hybrid_refused_when_declared, stream_refused_when_flagged)",
         "(known finding)": "hybrid files whose hidden objects have generation-0 free entries lose those objects (#31): hybrid_hidden_gen0_witness; "
             "same root cause as C04-generation-changed",
+        "(known finding 2)": "length-holder-in-objstm: a document in which an ORDINARY stream takes its /Length from an integer object stored in an object stream (legal: ISO 32000-1 7.5.7 "
+            "only forbids this for the /Length of an object stream's own dictionary) is REFUSED - parse_objects opens the object streams after both passes over the file-level objects and "
+            "the second pass exits on a stream whose length is still unknown. Found by the `lenc` / `lenh` generator families (every case of that shape); witness "
+            "length_holder_in_objstm_witness (Props/C03LenMember.lean: the file is refused, the same document with the holder at file level loads, the same object stream with a direct "
+            "/Length on the dependent stream loads). A container whose OWN /Length lives in an object stream is not a well-formed document: refused or exact load are both accepted.",
     },
     "n": {"quick": 1000, "thorough": 30000},
     "exhaustive": {"quick": False, "thorough": False},
     "shrink": False,
-    "rule": "corpus (w0_no_type_field; hand-built: tiny classic / garbage / two objects / identity mismatch / non-reference root / startxref out of range / no magic / "
+    "rule": "corpus (w0_no_type_field; length_by_reference_containers: hand-built minimal object streams with forward / backward referenced /Length in both file orders, cross-reference stream and hybrid; hand-built: tiny classic / garbage / two objects / identity mismatch / non-reference root / startxref out of range / no magic / "
             "no startxref / forward /Length / missing holder / minimal xref stream; smallest generated instances of the known finding) + per seed one "
             "document from the spec-side generator (Spec/Doc.lean renderHistory with one revision): 2-6 user objects with values from the C02 generator "
             "spelled by Spelling.spell (random choices), generations 0-2, some streams with random data and extra entries, /Length direct or by reference "
@@ -211,6 +218,11 @@ CFG = {
             "not at random; oracle = DocSpec.acceptable: a document that declares may be REFUSED or must load EXACTLY the objects DocSpec.resolve says - accepted with objects missing, extra or wrong "
             "is bad (the statement does not mention encryption, so nothing more is demanded); corpus/C03/encrypted.case (hand-built `decl` files: declared classic / hybrid / stream-dictionary-only, judged "
             "by the same rule, + undeclared controls that must load exactly); "
+            "every 4th case index a `lenc` document - OBJECT-STREAM CONTAINERS (and ordinary streams) whose own /Length is a REFERENCE (added after the missed seed C03_6): plain objects 1, 2, an object stream "
+            "(two members, optionally Flate'd) and an ordinary stream each taking its /Length from its own integer holder, in a cross-reference-stream or hybrid layout; 48 combinations = layout x NUMBER order (holder numbered below its stream: "
+            "loaded first / above it: forward reference, the container is deferred to the second pass and must still be unpacked) x FILE order (holder written before / after its stream: offset order vs number order) x family (one container + one stream; "
+            "three containers in one file - forward, backward and direct /Length; a holder that is itself a MEMBER of another object stream - of the ordinary stream: well formed, refused by the code = known class length-holder-in-objstm; of the container: "
+            "not a well-formed document (ISO 32000-1 7.5.7), refused or exact load accepted); oracle DocSpec.resolve: every member defined with its value; "
             "every 4th document again with the offsets of two in-use "
             "entries exchanged (must be rejected); every 2nd with one corruption (truncate, alter/delete/insert a byte, replace a number by an extreme "
             "one, cut the middle) judged for correspondence and no panic. Oracle = DocSpec.resolve on what the encoder wrote (never the model); it also "
